@@ -20,4 +20,5 @@ var Checks = map[string]func(*core.Env){
 	"C10": C10,
 	"C08": C08,
 	"C07": C07,
+	"C05": C05,
 }
